@@ -633,7 +633,7 @@ fn gen_answer(rng: &mut Rng, n_lines: usize, weights: &[u32; 6]) -> Ans {
         4 => Ans::Crash(format!("crash {}", rng.below(100))),
         _ => Ans::Exit(match rng.below(7) {
             // (other spellings of zero and of small numbers: the value is parsed as an integer)
-            6 => Some(rng.pick(&["00", "-0", "+0", "+1", "007", " 0", "0 ", "2147483647", "2147483648", "-2147483649", "4294967296", "99999999999999999999999999999999999999999"]).to_string()),
+            6 => Some(rng.pick(&["00", "-0", "+0", "+1", "007", " 0", "0 ", "2147483647", "2147483648", "-2147483649", "4294967296", "99999999999999999999999999999999999999999", "256", "-256", "512", "65536", "16777216", "-2147483648", "1024"]).to_string()),
             0 => None,
             1 => Some("0".to_string()),
             2 => Some(rng.range(1, 200).to_string()),
